@@ -20,20 +20,27 @@ pub fn generate_report(
 ) {
     let mut solstat_report = String::from("");
 
-    if vulnerabilities.len() > 0 {
+    if has_findings(&vulnerabilities) {
         solstat_report.push_str(&generate_vulnerability_report(vulnerabilities));
         solstat_report.push_str("\n\n");
     }
 
-    if optimizations.len() > 0 {
+    if has_findings(&optimizations) {
         solstat_report.push_str(&generate_optimization_report(optimizations));
         solstat_report.push_str("\n\n");
     }
 
-    if qa.len() > 0 {
+    if has_findings(&qa) {
         solstat_report.push_str(&generate_qa_report(qa));
         solstat_report.push_str("\n\n");
     }
 
     fs::write("solstat_report.md", solstat_report).expect("Unable to solstat_report to file");
+}
+
+//A category is part of the report when at least one of its patterns has a finding (a file with at least one line)
+fn has_findings<T>(findings: &HashMap<T, Vec<(String, BTreeSet<LineNumber>)>>) -> bool {
+    findings
+        .values()
+        .any(|files| files.iter().any(|(_, lines)| lines.len() > 0))
 }
